@@ -1604,7 +1604,16 @@ func (cx *SpecCtx) allFields(ref string, t types.Type) []location {
 func (env *Env) isLemmaInstance(e Expr) bool {
 	switch x := e.(type) {
 	case *ECall:
-		return env.findLemma(x.Fun) != nil
+		if env.findLemma(x.Fun) != nil {
+			return true
+		}
+		// a predicate (macro) whose body is a lemma instance
+		for _, sf := range env.Specs {
+			if p, ok := sf.Preds[x.Fun]; ok {
+				return env.isLemmaInstance(p.Body)
+			}
+		}
+		return false
 	case *EBinary:
 		if x.Op == "&&" {
 			return env.isLemmaInstance(x.X) && env.isLemmaInstance(x.Y)
